@@ -15,6 +15,7 @@ mod c07;
 mod c09;
 mod c12;
 mod c14;
+mod c15;
 mod c16;
 mod c17;
 mod c18;
@@ -59,6 +60,8 @@ fn main() {
         "c06_handoff" => c06::handoff(&v),
         "c14_entry" => c14::entry(&v),
         "c14_prune_select" => c14::prune_select(&v),
+        "c15_comparator" => c15::comparator(&v),
+        "c15_guards" => c15::guards(&v),
         "c07_journal_parse" => c07::journal_parse(&v),
         "c07_state_read" => c07::state_read(&v),
         "c09_lookup" => c09::lookup(&v),
